@@ -171,3 +171,23 @@ def irv_possible_winners(n, ballots):
 
     rec(frozenset())
     return winners
+
+
+def irv_order(n, ballots):
+    """one elimination order (ties broken towards the smaller index); last = winner"""
+    E, order = set(), []
+    while len(E) < n - 1:
+        standing = [c for c in range(n) if c not in E]
+        tall = {c: 0 for c in standing}
+        for b in ballots:
+            if b is None:
+                continue
+            f = first_standing(b, E)
+            if f is not None:
+                tall[f] += 1
+        m = min(tall.values())
+        c = min(c for c in standing if tall[c] == m)
+        E.add(c)
+        order.append(c)
+    order.append(next(c for c in range(n) if c not in E))
+    return order
